@@ -658,6 +658,11 @@ func report(p *Loaded, verif, prop, tier string, seed int, pc *PropConfig, resul
 						rconf, rdetail, rraw = replayObligation(p, bad, owner, h, filepath.Join(scratch, "smt"), scratch, seed)
 					}
 				}
+				if bad != nil && bad.Class == "B" && bad.Result != nil && bad.Result.Verdict == "bounded-fail" {
+					// the bounded stand-in ran the real code natively: its failing input is the witness
+					rconf = true
+					rdetail = map[string]interface{}{"kind": "fail", "detail": bad.Result.Output, "origin": "native bounded run of the real functions"}
+				}
 				rp := writeReplayFull(replayDir, prop, n, bad, owner, "", rconf, rdetail, rraw)
 				suffix := ""
 				if !rconf {
